@@ -134,6 +134,30 @@ def gen_workload(rng, mode):
             g = rng.choice(gens)
             gens.remove(g)
             history.append({'op': rng.choice(['gen_close', 'gen_drain', 'gen_abandon']), 'g': g})
+        elif r < 0.925 and mode != 'nochurn':
+            # the user edits a live tree between two queries (attribute, text, structure), then asks again
+            s = rng.randrange(len(cur))
+            edits = [gen.gen_edit(rng) for _ in range(rng.choice([1, 1, 2]))]
+            ask = None
+            if rng.random() < 0.7:
+                # a question the edit is likely to change the answer to: asked before (fills whatever the library
+                # remembers) and after the edit
+                keys.append({'pattern': rng.choice(gen.EDIT_ALIGNED[gen.edit_family(edits[-1])]), 'ns': None, 'custom': None,
+                             'flags': 0, 'uses_scope': False, 'special': 0})
+                ask = {'op': 'call', 'entry': rng.choice(['select', 'select', 'iselect', 'filter', 'match', 'closest']),
+                       'key': len(keys) - 1, 'doc': s, 'target': -1 if rng.random() < 0.7 else edits[-1][1],
+                       'form': rng.choice(['module', 'compiled', 'precompiled', 'bs4']), 'limit': 0}
+                history.append(dict(ask))
+                calls.append(len(history) - 1)
+            for e in edits:
+                history.append({'op': 'edit', 'doc': s, 'edit': e})
+            if ask is not None:
+                history.append(dict(ask, o2=True))
+            prev = [c for c in calls if history[c].get('doc') == s]
+            if prev and rng.random() < 0.6:
+                op = dict(history[rng.choice(prev)])
+                op.pop('fault', None)
+                history.append(op)
         elif r < 0.96 and mode != 'nochurn':
             s = rng.randrange(len(cur))
             if cur[s] in variants and rng.random() < 0.6:
@@ -237,7 +261,7 @@ class Live:
         self.gens = {}
 
     def _install(self, slot, sidx):
-        soup = gen.build_doc(self.w['specs'][sidx])
+        soup = gen.build_state(self.w['specs'], sidx)
         els, idx = fp.index_doc(soup)
         f = fp.doc_fingerprint(soup)
         if slot is None:
@@ -260,7 +284,7 @@ def _ref_ctx(sv, w, slot_spec, needed):
     ctx = ops.Ctx(sv, w['keys'], [])
     for s, sidx in enumerate(slot_spec):
         if s in needed:
-            soup = gen.build_doc(w['specs'][sidx])
+            soup = gen.build_state(w['specs'], sidx)
             els, idx = fp.index_doc(soup)
         else:
             soup, els, idx = None, [], {}
@@ -278,12 +302,17 @@ def _needed_slots(op):
     return need
 
 
+def _st(state):
+    """Hashable form of a slot state (spec index, or [spec index, [edits]])."""
+    return state if isinstance(state, int) else (state[0], json.dumps(state[1], sort_keys=True))
+
+
 def _call_key(op, slot_spec):
     items = op.get('items')
     ik = None
     if items is not None:
-        ik = tuple((dd if dd < 0 else ('s', dd % len(slot_spec), slot_spec[dd % len(slot_spec)]), tt) for dd, tt in items)
-    return (op.get('entry', 'select'), op['key'], op['doc'], slot_spec[op['doc']], op.get('target', -1),
+        ik = tuple((dd if dd < 0 else ('s', dd % len(slot_spec), _st(slot_spec[dd % len(slot_spec)])), tt) for dd, tt in items)
+    return (op.get('entry', 'select'), op['key'], op['doc'], _st(slot_spec[op['doc']]), op.get('target', -1),
             op.get('limit', 0), op.get('form', 'module'), ik)
 
 
@@ -323,6 +352,9 @@ def execute(sv, w, o2_seed=0, o2_rate=0.35, pristine_checks=2):
     for op in history:
         if op['op'] == 'churn':
             slot_spec[op['doc'] % nslots] = op['spec']
+        elif op['op'] == 'edit':
+            st = slot_spec[op['doc'] % nslots]
+            slot_spec[op['doc'] % nslots] = [st, [op['edit']]] if isinstance(st, int) else [st[0], list(st[1]) + [op['edit']]]
         plan.append(list(slot_spec))
 
     # ---- reference pass: every distinct call alone, on fresh copies, after purge, in a shuffled order
@@ -577,6 +609,21 @@ def execute(sv, w, o2_seed=0, o2_rate=0.35, pristine_checks=2):
             ids_seen.add(id(ctx.docs[s]))
             probe('fault:doc-churn')
             events.append((i, 'churn', s, op['spec']))
+        elif kind == 'edit':
+            s = op['doc'] % nslots
+            for g in gens.values():
+                if g['slot'] == s and not g['dead']:
+                    g['it'].close()
+                    g['dead'] = True
+                    g['it'] = None
+            check_doc(s, i, 'before-edit')
+            changed = gen.apply_edit(ctx.docs[s], op['edit'])
+            ctx.els[s], ctx.idx[s] = fp.index_doc(ctx.docs[s])
+            live.fps[s] = fp.doc_fingerprint(ctx.docs[s])
+            probe('fault:tree-edit' if changed else 'tree_edit_noop')
+            if changed:
+                probe('tree_edit:' + op['edit'][0])
+            events.append((i, 'edit', s, changed))
         elif kind == 'purge':
             sv.purge()
             events.append((i, 'purge'))
@@ -600,7 +647,8 @@ def execute(sv, w, o2_seed=0, o2_rate=0.35, pristine_checks=2):
         'nsteps': len(history),
         'sig': fp.h((shape, sorted(k for k in probes if k.startswith(('generator', 'doc_id', 'fault', 'call_rep'))))),
         'nontrivial': bool(probes.get('generator_resumed_after_peer_query') or probes.get('call_repeated_later_in_history')
-                           or probes.get('fault:exc@step') or probes.get('doc_id_reused')),
+                           or probes.get('fault:exc@step') or probes.get('doc_id_reused')
+                           or probes.get('fault:tree-edit')),
     }
 
 
@@ -978,6 +1026,8 @@ def _op_str(w, op):
         return f"g{op['g']} = iselect[{op.get('form')}]({pat!r}, slot{op['doc']}@{op.get('target')}, limit={op.get('limit')})"
     if op['op'] == 'gen_next':
         return f"next(g{op['g']}) x{op.get('n', 1)}" + (f" FAULT {op['fault'][1]}@step{op['fault'][0]}" if op.get('fault') else '')
+    if op['op'] == 'edit':
+        return f"user edits the tree in slot{op['doc']}: {json.dumps(op['edit'])}"
     if op['op'] == 'churn':
         return f"drop document in slot{op['doc']}; parse spec {op['spec']} into it"
     if op['op'] in ('gen_close', 'gen_drain', 'gen_abandon'):
